@@ -310,7 +310,7 @@ MARK = S.Tok('<ignored>')
 
 
 def ignore_specs(shape, maxsize):
-    items = list(shape.names()) + [0, 1, 2] + ['*', '**', S.FOREIGN]
+    items = list(shape.names()) + [0, 1, 2] + ['*', '**', S.FOREIGN] + [-1, 7]      # (a negative or too large index selects nothing)
     out = []
     for k in range(1, maxsize + 1):
         out += list(itertools.combinations(items, k))
@@ -327,7 +327,7 @@ def project(shape, pnames, got, spec):
     idx = set(i for i in spec if isinstance(i, int))
     sel = set(names)
     for i in idx:
-        if i < len(pnames):
+        if 0 <= i < len(pnames):
             sel.add(pnames[i])
     out = {}
     for k, v in got.items():
@@ -469,9 +469,15 @@ def _c11_explicit_instance(out, seen, shape, entered, maxpos, maxkw, mode, idx):
     _, I, _ = K._mods()
     func, it, iff, desc = S.make_unbound(shape, entered)
     pnames = [S.POS_NAMES[i] for i in range(shape.npos)]
-    base = [('self',)] + [('self', x) for x in list(shape.names()) + [0, '*', '**']]
+    base = [('self',)] + [('self', x) for x in list(shape.names()) + [0, '*', '**']] + [(0,), (0, '**'), (0, 1)]
     for spec in base:
         by_proj = {}
+        by_key = {}
+        # the instance is the first positional argument of the plain function: index 0 selects it, index i > 0 the (i-1)th parameter
+        if 'self' in spec:
+            pspec = tuple(x for x in spec if x != 'self')
+        else:
+            pspec = tuple((x - 1 if isinstance(x, int) else x) for x in spec if x != 0)
         for inst in (it, iff):
             for (args0, kwi0) in S.call_forms(shape, maxpos, min(maxkw, 1), orders=False):
                 args = (inst,) + tuple(args0)
@@ -485,8 +491,16 @@ def _c11_explicit_instance(out, seen, shape, entered, maxpos, maxkw, mode, idx):
                     _viol(out, seen, 'keygen_total', 'explicit instance: raises %s' % e.__class__.__name__, '%s ignore=%r: %r' % (desc, spec, e),
                           {'prop': 'C11', 'mode': mode, 'shape': idx, 'spec': list(spec), 'desc': desc, 'kind': 'explicit-instance'})
                     continue
-                p = K.freeze(project(shape, pnames, got, tuple(x for x in spec if x != 'self')), strict=True)
+                got_wo = {k: v for k, v in got.items() if k != 'self'} if isinstance(got, dict) else got
+                p = K.freeze(project(shape, pnames, got_wo, pspec), strict=True)
                 q = by_proj.setdefault(p, (g, len(inst), args0, kwi0))
+                r = by_key.setdefault(g, (p, args0, kwi0))
+                if r[0] != p:
+                    _viol(out, seen, 'others_still_discriminate', "explicit instance ignored: calls that differ in another argument share a key",
+                          "%s, ignore=%r: the calls %s and %s differ in an argument that is not ignored but get the same _keygen output"
+                          % (desc, spec, K.call_repr(args0, kwi0), K.call_repr(r[1], r[2])),
+                          {'prop': 'C11', 'mode': mode, 'shape': idx, 'spec': list(spec), 'desc': desc, 'kind': 'explicit-instance',
+                           'call': _enc_call(args0, kwi0)})
                 if q[0] != g:
                     _viol(out, seen, 'instance_ignored', "ignore contains 'self': the instance influences the key",
                           "%s, ignore=%r: the call %s on an instance with len %d and on one with len %d get different _keygen output"
